@@ -78,15 +78,15 @@ func fertRef(sc *Scenario, e *FertEvent) (ndir, nh4, nfast, nslow float64, ok bo
 }
 
 type monC10 struct {
-	beginn, ende int
-	expFert      []expEvent
-	expTill      []expEvent
+	beginn, ende                      int
+	expFert                           []expEvent
+	expTill                           []expEvent
 	zeroDepthTill, tillAfterZeroDepth int
-	expIrr       []expEvent
-	expSow       []expEvent
-	expHarv      []expEvent
-	irrByDay     map[int]*IrrEvent
-	fertByDue    map[int]*expEvent
+	expIrr                            []expEvent
+	expSow                            []expEvent
+	expHarv                           []expEvent
+	irrByDay                          map[int]*IrrEvent
+	fertByDue                         map[int]*expEvent
 	// state snapshots
 	c1Begin                float64
 	dsumm, nh4sum          float64
